@@ -104,7 +104,14 @@ def sparse(fat):
 
 
 def real_state(w, keys):
-    """the real in-memory state in the model's vocabulary"""
+    """the real in-memory state in the model's vocabulary; a state pyfatfs itself cannot walk is a state of its own"""
+    try:
+        return _real_state(w, keys)
+    except Exception as e:  # noqa
+        return {"hint": -1, "len": -1, "fat": "unwalkable:" + common.exc_class(e), "root": "-", "dirs": {}}
+
+
+def _real_state(w, keys):
     pf = w.fs.fs
     out = {"hint": pf.first_free_cluster, "len": len(pf.fat), "fat": sparse(pf.fat)}
     is32 = pf.fat_type == 32
@@ -133,6 +140,14 @@ def real_state(w, keys):
 
 
 def device_state(w, keys, cp="ibm437"):
+    """the device through the independent reader; an image it cannot read is a state of its own"""
+    try:
+        return _device_state(w, keys, cp)
+    except Exception as e:  # noqa  (FatError, struct.error on a damaged image)
+        return {"dlen": -1, "dfat": "unreadable:" + common.exc_class(e) + ":" + str(e)[:80].replace(" ", "_"), "dirs": {}}
+
+
+def _device_state(w, keys, cp="ibm437"):
     v = specfat.Volume(w.dev.snapshot(), w.off)
     nent = len(v.fats[0]) * 8 // v.type
     out = {"dlen": nent, "dfat": ",".join("%d:%d" % (i, v.entry(i)) for i in range(2, nent) if v.entry(i)) or "-"}
